@@ -7,6 +7,11 @@ CONSTANTS
   MaxCalls = 2
   DoScan = FALSE
   TrigonalFixed = TRUE
+  BigHkls = {}
+  ConcPairs = {}
+  CoarseNames = {}
+  Stride = 1
+  PublishEarly = FALSE
 INVARIANT TypeOK
 INVARIANT GenOK
 INVARIANT Closed
